@@ -1,3 +1,123 @@
-import RlibModel.Model.Common
-/-! Line-protocol driver for engine `sieve` (stub: to be written by the engine's author). -/
-def main : IO Unit := pure ()
+import RlibModel.Model.Sieve
+/-!
+Line-protocol driver for engine `sieve` (property C13).
+
+Cases (N = the limit passed to `Sieve::new`, all numbers decimal):
+* `tab N`            raw = `len=.. mnp#<fnv64> isp#<fnv64> primes#<count>:<fnv64>` of the three tables read through the
+                     accessors for every `n ≤ N`; view = `ok` iff every entry equals the arithmetic definition
+                     (driver: trial-division spec; harness: its own trial-division oracle), else the first bad entry.
+* `big N`            same raw; the driver does not recompute the spec tables (view `ok` is `C13.minPrime_spec` etc.,
+                     proved for every N); the harness compares against an independent segmented Eratosthenes.
+* `mnp N` `isp N` `primes N`   the whole table as text.
+* `mp N n` / `ip N n`          one accessor call (out of range ⇒ `panic:index`, outside the property's domain).
+* `fact N n`                   `factorize(n).collect()` as `[p^e,...]`.
+* `factm N n1,n2,...`          several factorisations on one sieve, joined by `/`.
+-/
+open Rlib Rlib.Sieve
+
+def fnvInit : UInt64 := 0xcbf29ce484222325
+@[inline] def fnvStep (h : UInt64) (x : Nat) : UInt64 := (h ^^^ x.toUInt64) * 0x100000001b3
+
+/-- tables as the accessors show them: `min_prime(c)`, `is_prime(c)` for `c ≤ N`, and `primes()` -/
+structure Obs where
+  len : Nat
+  hm : UInt64
+  hi : UInt64
+  np : Nat
+  hp : UInt64
+
+def observe (s : St) (N : Nat) : Obs :=
+  let hm := (List.range (N + 1)).foldl (fun h c => fnvStep h (match minPrime s c with | .ok v => v + 1 | .error _ => 0)) fnvInit
+  let hi := (List.range (N + 1)).foldl (fun h c => fnvStep h (match isPrime s c with | .ok true => 2 | .ok false => 1 | .error _ => 0)) fnvInit
+  let hp := s.primes.foldl (fun h p => fnvStep h p) fnvInit
+  { len := N + 1, hm := hm, hi := hi, np := s.primes.size, hp := hp }
+
+def Obs.show (o : Obs) : String :=
+  s!"len={o.len} mnp#{toHex o.hm.toNat 16} isp#{toHex o.hi.toNat 16} primes#{o.np}:{toHex o.hp.toNat 16}"
+
+def specMnpEntry (c : Nat) : Nat := if c < 2 then 0 else specMinFac c
+
+instance : BEq (Except Panic Nat) := ⟨fun a b => match a, b with
+  | .ok x, .ok y => x == y | .error e, .error f => e == f | _, _ => false⟩
+instance : BEq (Except Panic Bool) := ⟨fun a b => match a, b with
+  | .ok x, .ok y => x == y | .error e, .error f => e == f | _, _ => false⟩
+
+/-- first entry (if any) where the model's tables differ from the arithmetic definitions -/
+def firstBad (s : St) (N : Nat) : Option String :=
+  let bad1 := (List.range (N + 1)).find? (fun c => minPrime s c != .ok (specMnpEntry c))
+  match bad1 with
+  | some c => some s!"bad mnp[{c}]"
+  | none =>
+    let bad2 := (List.range (N + 1)).find? (fun c => isPrime s c != .ok (specIsPrime c))
+    match bad2 with
+    | some c => some s!"bad isp[{c}]"
+    | none => if primesOf s = specPrimes N then none else some "bad primes"
+
+def showFact (l : List (Nat × Nat)) : String :=
+  showListWith (fun (pe : Nat × Nat) => s!"{pe.1}^{pe.2}") l
+
+def showBits (l : List Bool) : String := String.ofList (l.map (fun b => if b then '1' else '0'))
+
+def fuelFor (n : Nat) : Nat := n.log2 + 1
+
+def handle (line : String) : String :=
+  match tokens line with
+  | ["tab", sN] =>
+    match parseNat? sN with
+    | some N =>
+      let s := sieve N
+      let v := match firstBad s N with | none => "ok" | some b => b
+      answer3 (observe s N).show v "ok"
+    | none => badLine line
+  | ["big", sN] =>
+    match parseNat? sN with
+    | some N =>
+      let s := sieve N
+      answer3 (observe s N).show "ok" "ok"
+    | none => badLine line
+  | ["mnp", sN] =>
+    match parseNat? sN with
+    | some N =>
+      let s := sieve N
+      let m := (List.range (N + 1)).map (fun c => showExcept toString (minPrime s c))
+      let sp := (List.range (N + 1)).map (fun c => toString (specMnpEntry c))
+      answer ("[" ++ ",".intercalate m ++ "]") ("[" ++ ",".intercalate sp ++ "]")
+    | none => badLine line
+  | ["isp", sN] =>
+    match parseNat? sN with
+    | some N =>
+      let s := sieve N
+      let m := (List.range (N + 1)).map (fun c => match isPrime s c with | .ok b => b | .error _ => false)
+      answer (showBits m) (showBits ((List.range (N + 1)).map specIsPrime))
+    | none => badLine line
+  | ["primes", sN] =>
+    match parseNat? sN with
+    | some N => answer (showNats (primesOf (sieve N))) (showNats (specPrimes N))
+    | none => badLine line
+  | ["mp", sN, sn] =>
+    match parseNat? sN, parseNat? sn with
+    | some N, some n =>
+      answer (showExcept toString (minPrime (sieve N) n)) (if 2 ≤ n ∧ n ≤ N then toString (specMinFac n) else "any")
+    | _, _ => badLine line
+  | ["ip", sN, sn] =>
+    match parseNat? sN, parseNat? sn with
+    | some N, some n =>
+      answer (showExcept showBool (isPrime (sieve N) n)) (if n ≤ N then showBool (specIsPrime n) else "any")
+    | _, _ => badLine line
+  | ["fact", sN, sn] =>
+    match parseNat? sN, parseNat? sn with
+    | some N, some n =>
+      answer (showExcept showFact (factorize (sieve N) (fuelFor n) n))
+        (if 1 ≤ n ∧ n ≤ N then showFact (specFactorize (fuelFor n) n) else "any")
+    | _, _ => badLine line
+  | ["factm", sN, sns] =>
+    match parseNat? sN, parseNatsComma? sns with
+    | some N, some ns =>
+      let s := sieve N
+      let m := ns.map (fun n => showExcept showFact (factorize s (fuelFor n) n))
+      let sp := ns.map (fun n => showFact (specFactorize (fuelFor n) n))
+      answer ("/".intercalate m) (if ns.all (fun n => 1 ≤ n ∧ n ≤ N) then "/".intercalate sp else "any")
+    | _, _ => badLine line
+  | _ => badLine line
+
+def main : IO Unit := driverMain handle
